@@ -13,6 +13,11 @@ What is taken from where (so that a wrong value inside the implementation shows 
 from fractions import Fraction as F
 import common, lpdump, e1
 
+import os
+# False = the code as it is (open finding C04 rep_cap_from_own_flow).  Set to True (and the finding to "fixed") once
+# proposed_fixes/kfdc_scale_free_cap.diff is applied to /repo: the Coq model then uses the scale-free cap.
+SCALE_FREE_CAP = os.environ.get("VERIF_KFDC_SCALE_FREE_CAP", "0") == "1"
+
 PREFIX_FAM = {"edge": 0, "pi": 1, "weights": 2, "used_edge": 7, "selected_edge": 8}
 
 
@@ -47,6 +52,7 @@ def kfdc_request(m, args, ids=None):
     t += opts_of(m) + safety_tokens(m, ids)
     gw = (args.get("optimization_options") or {}).get("given_weights")
     t += [0] if gw is None else [1, len(gw), [common.qtok(w) for w in gw]]
+    t += [SCALE_FREE_CAP]
     return "kfdc " + common.toks(t)
 
 
